@@ -5519,7 +5519,7 @@ int cgi_read_string(double id, char_33 name, char **string_data)
 {
     int n, ndim;
     char_33 data_type;
-    cgsize_t length[2], len=1;
+    cgsize_t length[CGIO_MAX_DIMENSIONS], len=1;  /* the node, not this reader, says how many */
 
     if (cgi_read_node(id, name, data_type, &ndim, length, (void **)string_data, READ_DATA)) {
         cgi_error("Error reading string");
